@@ -1,0 +1,30 @@
+//go:build verif
+
+package tchannel
+
+// C10: contracts proved under other properties that are also single-writer
+// facts of the response wire discipline (tags only; the clauses live in the
+// files named).
+
+// (C20 file) a handler's system error completes the response: the error frame
+// carries the call's id, and afterwards the response writer is complete, so no
+// response fragment can follow it; a response that already failed sends nothing.
+//@ func (response *InboundCallResponse) SendSystemError(err error) (out error)
+//@   property C10
+
+// (primary file) the connection-level error frame: attempted unless closed,
+// for exactly the given id.
+//@ func (c *Connection) SendSystemError(id uint32, span Span, err error) (sendErr error)
+//@   property C10
+
+// (primary file) inbound admission: dispatch, or exactly one error frame.
+//@ func (c *Connection) handleCallReq(frame *Frame) (release bool)
+//@   property C10
+
+// (relay file) relay timeout / failure: one error frame on the originating side only.
+//@ func (r *Relayer) timeoutRelayItem(items *relayItems, id uint32, isOriginator bool)
+//@   property C10
+//@ func (r *Relayer) failRelayItem(items *relayItems, id uint32, reason string, err error)
+//@   property C10
+//@ func (r *Relayer) getDestination(f *lazyCallReq, call RelayCall) (conn *Connection, ok bool, err error)
+//@   property C10
